@@ -164,21 +164,14 @@ def run_cases(ctx, cases, label):
         else:
             enc.append(encode_case(c, r))
     # shard into files of <= 150 cases
-    mism = []
     idx = [i for i, e in enumerate(enc) if e is not None]
-    shard = 150
-    for s in range(0, len(idx), shard):
-        part = idx[s:s + shard]
-        text = core.HEADER + "From stdpp Require Import gmap.\nFrom PV Require Import Lib.Closure Model.C17_alias.\n" \
-            "Definition cases : list (list svar * list op * list (list obs_rel)) :=\n" + \
-            cq_list([enc[i] for i in part]).replace("; (", ";\n (") + ".\n" \
-            "Eval vm_compute in (bad_indices check_case cases 0).\n"
-        ok, out, err = core.coq_run(ctx, "cases_%s_%d" % (label, s), text)
-        if not ok:
-            ctx.oblige("correspondence:%s:coqc" % label, False, err[-800:])
-            return results, list(range(len(cases))), bad_impl
-        vals = core.coq_results(out)
-        mism += [part[j] for j in core.parse_nat_list(vals[-1])]
+    bad = core.coq_eval_cases(
+        ctx, label,
+        "From stdpp Require Import gmap.\nFrom PV Require Import Lib.Closure Model.C17_alias.\n",
+        "list svar * list op * list (list obs_rel)", [enc[i] for i in idx], "check_case", shard=120)
+    if bad is None:
+        return results, list(range(len(cases))), bad_impl
+    mism = [idx[j] for j in bad]
     return results, mism, bad_impl
 
 
